@@ -62,7 +62,7 @@ def _words(rng, n_random):
     for _ in range(n_random):
         words.add("".join(rng.choice(alpha) for _ in range(rng.randint(1, 6))).encode())
     words.discard(b"")
-    return sorted(words)
+    return [b""] + sorted(words)     # set to the empty string: treated like unset
 
 
 def gen(tier, seed, chunk, nch):
@@ -73,15 +73,15 @@ def gen(tier, seed, chunk, nch):
     for letter in (True, False):
         for rev in (True, False):
             for default in (None, 0, 1, 3):
-                for envw in (None, b"TRUE", b"no"):
+                for envw in (None, b"TRUE", b"no", b""):
                     d = _decl(letter, rev, default, envw is not None)
                     alpha = _alphabet(letter)
-                    for L in range(0, maxlen + 1):
+                    for L in range(0, (maxlen if envw != b"" else 2) + 1):
                         for seq in itertools.product(alpha, repeat=L):
                             k += 1
                             if k % nch != chunk:
                                 continue
-                            cases.append({"decl": d, "env": {ENVN: envw} if envw else {}, "argv": list(seq),
+                            cases.append({"decl": d, "env": {ENVN: envw} if envw is not None else {}, "argv": list(seq),
                                           "dv": [letter, rev, default, "pattern"]})
     words = _words(rng, 200 if tier == "quick" else 3000)
     for letter in (True, False):
@@ -118,6 +118,8 @@ def script(cid, case):
 def _wclass(w):
     if w is None:
         return "none"
+    if w == b"":
+        return "set-empty"
     if w in TRUTHY:
         return "truthy"
     if w in FALSY:
